@@ -50,6 +50,14 @@ def encodings(rng, y, mask, variant):
         encs.append((f"inside:{int(ins)}", np.where(mask, ins, y), ins))
     for v in above[:2]:
         encs.append((f"above:{int(v)}", np.where(mask, v, y), v))
+    if valid.size and variant != "ws2doptvplc":
+        # a placeholder is any value no valid cell takes - also one that hugs a valid cell (a fill value that went through
+        # a float round trip, a sensor value one count away from it): "equal" must mean equal, not close
+        v = float(valid[int(rng.integers(valid.size))])
+        lab, nd = [("hugging:1e-6-relative", v * (1 + 1e-6) if v else 1e-9), ("hugging:next-float", float(np.nextafter(v, np.inf))), ("hugging:half-a-count", v + 0.5),
+                   ("hugging:1e-7-relative-below", v * (1 - 1e-7) if v else -1e-9)][int(rng.integers(0, 4))]
+        if not np.any(valid == nd) and np.isfinite(nd):
+            encs.append((lab, np.where(mask, nd, y), nd))
     if variant in NONFINITE_OK and mask.any():
         nd = below[0] if below else above[0]
         for lab, val in (("nan", np.nan), ("+inf", np.inf), ("-inf", -np.inf)):
